@@ -184,6 +184,25 @@ def _check_sig(spec, stats):
             raise Violation(f"C20/sig-ne/{cls}", f"{x!r} != {y!r} inconsistent, parameters {kx} vs {ky}")
     if not (sa == sa):
         raise Violation(f"C20/sig-eq-self/{cls}", f"{sa!r} != itself")
+    # a signature of another class (whatever its parameters), a generic signature with the same
+    # members and non-signatures are never equal to it - in either order. (The flipped signature is
+    # not compared: these classes compare parameters only, so sig == sig.flip() holds on the pinned
+    # tree; the property speaks of defining parameters, not of flow.)
+    others = [("csr", [4, 8]), ("csr", [max(1, spec["a"][0]) if cls == "wb" else 4, spec["a"][1] if cls == "wb" else 8]),
+              ("wb", [spec["a"][0] if cls == "csr" and spec["a"][0] <= 32 else 4, spec["a"][1] if cls == "csr" and spec["a"][1] in (8, 16, 32, 64) else 8, None, [], False]),
+              ("element", [8, "rw", False]), ("fieldport", [["u", 3], "rw", False]), ("source", ["level", False]), ("pin", [])]
+    foreign = [(c, _make_sig(c, p_)[0]) for c, p_ in others if c != cls]
+    foreign += [("generic", wiring.Signature(dict(sa.members))), ("none", None), ("int", 3), ("str", "x")]
+    for c, o in foreign:
+        for how, f in (("==", lambda: sa == o), ("reversed ==", lambda: o == sa), ("!=", lambda: not (sa != o))):
+            try:
+                r = f()
+            except Exception as e:
+                raise Violation(f"C20/sig-eq-foreign/{cls}", f"{sa!r} {how} <{c}: {o!r}> raised {type(e).__name__}: {e}")
+            if c == "generic" and how != "==":
+                continue          # what a plain wiring.Signature makes of the comparison is Amaranth's business
+            if r:
+                raise Violation(f"C20/sig-eq-foreign/{cls}", f"{sa!r} {how} <{c}: {o!r}> holds")
     # copies carry the same defining parameters (and a signature that was flipped twice, used to
     # create interfaces, or asked for its members is still the same signature)
     import copy
@@ -202,6 +221,14 @@ def _check_sig(spec, stats):
         named = s.create(path=("p", "q"))
         if not (named.signature == s):
             raise Violation(f"C20/create-roundtrip/{cls}", f"create(path=...) lost parameters {k}")
+        # array members: Amaranth passes paths with integer items to create()
+        for apath in (("port", 0), ("bus", 3, "sub"), (0,)):
+            try:
+                arr = s.create(path=apath)
+            except Exception as e:
+                raise Violation(f"C20/create-array-path/{cls}", f"{s!r}.create(path={apath!r}) raised {type(e).__name__}: {e}")
+            if not (arr.signature == s):
+                raise Violation(f"C20/create-roundtrip/{cls}", f"create(path={apath!r}) lost parameters {k}")
         top = _create_at_top_level(s)
         if "error" in top:
             raise Violation(f"C20/create-toplevel/{cls}", f"{s!r}.create() called from the outermost frame (top level "
